@@ -873,3 +873,43 @@ def aead_roles(prog):
                 auths.add(it["path"])
                 gens |= {o["path"] for o in others}
     return auths, gens
+
+
+def bytes_equality_kind(prog, target):
+    """Is the workspace function `target` an equality test of two byte strings? Returns
+    'equality'  — a plain `==` inside, or an accumulate-OR of byte XORs compared with zero (constant-time compare);
+    'not-equality' — it looks like a byte-wise compare but folds the differences with something that lets them cancel (XOR / ADD fold):
+                     different inputs can compare equal;
+    None — not a byte-compare helper."""
+    b = prog.bodies.get(target)
+    if b is None or b.local_ty(0) != "bool" or b.argc != 2:
+        return None
+    if not all("[u8" in b.local_ty(i) for i in (1, 2)):
+        return None
+    fam = prog.family(b.root)
+    for fb in fam:
+        if any(c.name in ("PartialEq::eq", "PartialEq::ne") for (_, c, _) in fb.calls()) and \
+                not any(c.name.startswith(("BitXor", "BitOr")) for f2 in fam for (_, c, _) in f2.calls()) and \
+                not any(s["k"] == "assign" and s["rv"]["k"] == "bin" and s["rv"]["op"] in ("BitXor", "BitOr") for f2 in fam for blk in f2.rpo() for s in f2.stmts(blk)):
+            return "equality"
+    xors, ors, folds_xor = 0, 0, 0
+    for fb in fam:
+        for (_, c_, _) in fb.calls():       # `u8 ^ &u8` is a trait call, not a MIR binary operation
+            if c_.name in ("BitXor::bitxor", "BitXorAssign::bitxor_assign"):
+                xors += 1
+            elif c_.name in ("BitOr::bitor", "BitOrAssign::bitor_assign"):
+                ors += 1
+        for blk in fb.rpo():
+            for s in fb.stmts(blk):
+                if s["k"] == "assign" and s["rv"]["k"] == "bin":
+                    op = s["rv"]["op"]
+                    if op == "BitXor":
+                        xors += 1
+                    elif op == "BitOr":
+                        ors += 1
+    # `diff |= x ^ y`: one XOR per element pair and an OR accumulate; `diff ^= x ^ y` / `diff = diff ^ x ^ y`: XORs only
+    if xors >= 1 and ors >= 1:
+        return "equality"
+    if xors >= 1 and ors == 0:
+        return "not-equality"
+    return None
